@@ -6,9 +6,37 @@ PROFILES = [(3, {"kinds": {"comp": 1, "ping": 1, "timer": 6, "chan": 0.5}, "n_se
             (1, {"kinds": {"compt": 4, "timer": 3, "ping": 1, "comp": 1}, "share_fd_prob": 0.0, "script_prob": 0.85, "stats_prob": 0.9, "err_ret_prob": 0.0})]
 
 
+def real_time_never_early(chk, st):
+    """never before its deadline, on the real clock: dispatch(None) is ended after 150 ms by LoopSignal::wakeup() from another thread
+    while a timer is armed for 400 / 700 ms - the timer must not fire (harness/src/m_timing.rs, the C12 harness)"""
+    import p_c12
+    cases = ["-1 400 0", "-1 700 0", "-1 400 1", "-1 700 3"]
+    outs = [p_c12.run_impl_one(c) for c in cases]
+    bad = [(c, o) for c, o in zip(cases, outs) if len(o.split()) == 4 and o.split()[1] != "0"]
+    chk.cov["real_time_wakeup_cases"] = {"cases": cases, "results(elapsed_us fired other ok)": outs}
+    if bad:
+        c, o = bad[0]
+        chk.violation("oracle-early", "C05 violated on the real code: a timer fired before its deadline: dispatch(None) was woken after 150 ms, the timer was armed for %s ms\n"
+                      "case (timeout_ms timer_ms idle_kind): %s\nmeasured (elapsed_us fired other ok): %s" % (c.split()[1], c, o))
+
+
 def main(tier, seed):
-    return p_seqprops.run("C05", tier, seed, PROFILES, props=PROPS)
+    return p_seqprops.run("C05", tier, seed, PROFILES, props=PROPS, extra_front=real_time_never_early)
 
 
 def replay(path):
+    txt = open(path).read()
+    if "case (timeout_ms timer_ms idle_kind):" in txt:
+        import p_c12
+        import vlib
+        vlib.build_harness()
+        rc = 0
+        for l in txt.split("\n"):
+            if l.startswith("case (timeout_ms timer_ms idle_kind):"):
+                c = l.split(":", 1)[1].strip()
+                o = p_c12.run_impl_one(c)
+                print(c, "->", o)
+                if len(o.split()) == 4 and o.split()[1] != "0":
+                    rc = 1
+        return rc
     return p_seqprops.replay("C05", path, props=PROPS)
